@@ -118,6 +118,8 @@ contract("fparser.two.Fortran2003:Type_Declaration_Stmt.add_to_symbol_table",
     bind={"SYMBOL_TABLES": "ref:SymbolTables"},
     modifies=["*._data_symbols"],
     calls={"walk": "pure:list[ref]", "table.add_data_symbol": "proto:add_data_symbol", "str": "pure:str", "isinstance": "pure:bool"},
+    # shape of an Entity_Decl node: (name, array-spec, char-length, initialization), the tuple Entity_Decl.match returns
+    requires={"entity_decl_shape": "all(len(walk(result, Entity_Decl)[k].items) == 4 for k in range(len(walk(result, Entity_Decl))))"},
     ensures={
         # every entity of an intrinsic-typed declaration ends up in the table of the *current* scope ...
         "entities_registered_in_the_current_scope": "implies(result is not None and SYMBOL_TABLES._current_scope is not None and isinstance(nonnull(result)[0], Intrinsic_Type_Spec), "
